@@ -13,6 +13,11 @@ PLANS = {
             'thorough': [E('C10', 'plain', 200000, 3600), E('C10', 'asan', 5000, 900, seed_offset=500000)]},
     'C03': {'quick': [E('C03', 'plain', 1400, 100), E('C03', 'asan', 120, 45, seed_offset=500000, run_wall_s=120)],
             'thorough': [E('C03', 'plain', 60000, 3600), E('C03', 'asan', 3000, 1200, seed_offset=500000)]},
+    'C08': {'quick': [E('C08', 'plain', 6000, 70), E('C08', 'asan', 600, 40, seed_offset=500000)],
+            'thorough': [E('C08', 'plain', 1000000, 3000, tier=1), E('C08', 'asan', 50000, 1500, seed_offset=500000, tier=1)]},
+    'C09': {'quick': [E('C09', 'tsan', 400, 100, run_wall_s=200), E('C09PG', 'tsan', 300, 25, seed_offset=500000, run_wall_s=120)],
+            'thorough': [E('C09', 'tsan', 10000, 3600, run_wall_s=600, tier=1), E('C09PG', 'tsan', 5000, 900, seed_offset=500000, run_wall_s=300, tier=1),
+                         E('C10', 'tsan', 2000, 1200, seed_offset=700000, run_wall_s=600)]},
     # C12: seeds 0..1039 enumerate (3-man class, colour assignment, abort step 0..63, abort kind) completely; the rest samples 4-man classes
     'C12': {'quick': [E('C12', 'plain', 1040 + 10, 140, enumerate=True, run_wall_s=200,
                         prep=['build/plain/texelsim dtm all3', 'build/plain/texelsim dtm KQvKR', 'build/plain/texelsim dtm KRBvK'])],
